@@ -88,4 +88,218 @@ theorem Dr7Value_toggle_flags (v f : BitVec 64) :
 theorem Dr7Value_set_flags (v f : BitVec 64) (value : Bool) :
     Src.Dr7Value_set_flags cfg v f value = .ok ((), Dr7Value.setFlags v f value) := by tie_codec
 
+/-- the translator's representation of the unit enums of `debug.rs`: the discriminant as a `u8` -/
+def darn8 (n : DebugAddressRegisterNumber) : BitVec 8 := BitVec.ofNat 8 n.get
+def bc8 (c : BreakpointCondition) : BitVec 8 := BitVec.ofNat 8 c.toNat
+def bs8 (s : BreakpointSize) : BitVec 8 := BitVec.ofNat 8 s.toNat
+
+theorem darn_new_get (n : Nat) :
+    (DebugAddressRegisterNumber.new n).map (·.get) = if n < 4 then some n else none := by
+  match n with
+  | 0 => rfl
+  | 1 => rfl
+  | 2 => rfl
+  | 3 => rfl
+  | n + 4 => simp [DebugAddressRegisterNumber.new]
+
+theorem bc_fromBits_toNat (n : Nat) :
+    (BreakpointCondition.fromBits n).map (·.toNat) = if n < 4 then some n else none := by
+  match n with
+  | 0 => rfl
+  | 1 => rfl
+  | 2 => rfl
+  | 3 => rfl
+  | n + 4 => simp [BreakpointCondition.fromBits]
+
+theorem bs_fromBits_toNat (n : Nat) :
+    (BreakpointSize.fromBits n).map (·.toNat) = if n < 4 then some n else none := by
+  match n with
+  | 0 => rfl
+  | 1 => rfl
+  | 2 => rfl
+  | 3 => rfl
+  | n + 4 => simp [BreakpointSize.fromBits]
+
+/-- `n < 4` on a bit vector, with the number put back -/
+theorem lt4_map {w : Nat} (hw : 4 < 2 ^ w) (x : BitVec w) :
+    (if x.toNat < 4 then some x.toNat else none).map (BitVec.ofNat 8) =
+      bif BitVec.ult x (BitVec.ofNat w 4) then some (x.setWidth 8) else none := by
+  have h4 : (BitVec.ofNat w 4).toNat = 4 := by simp [BitVec.toNat_ofNat, Nat.mod_eq_of_lt hw]
+  by_cases h : x.toNat < 4
+  · have : BitVec.ult x (BitVec.ofNat w 4) = true := by simp [BitVec.ult, h4, h]
+    simp only [h, this, if_true, Option.map_some, cond_true]
+    congr 1
+    apply BitVec.eq_of_toNat_eq
+    simp [BitVec.toNat_setWidth]
+  · have : BitVec.ult x (BitVec.ofNat w 4) = false := by simp [BitVec.ult, h4, h]
+    simp [h, this]
+
+
+/-! ### The unit enums of `debug.rs` and the accessors that go through them -/
+
+theorem DebugAddressRegisterNumber_new_closed (n : BitVec 8) :
+    Src.DebugAddressRegisterNumber_new cfg n = .ok (bif BitVec.ult n 4#8 then some (n.setWidth 8) else none) := by
+  tie_codec
+
+/-- `DebugAddressRegisterNumber::new` accepts exactly 0..3, as the model. -/
+theorem DebugAddressRegisterNumber_new (n : BitVec 8) :
+    Src.DebugAddressRegisterNumber_new cfg n = .ok ((DebugAddressRegisterNumber.new n.toNat).map darn8) := by
+  rw [DebugAddressRegisterNumber_new_closed]
+  have h := lt4_map (w := 8) (by decide) n
+  rw [← darn_new_get, Option.map_map] at h
+  exact congrArg R.ok h.symm
+
+theorem DebugAddressRegisterNumber_get (n : DebugAddressRegisterNumber) :
+    Src.DebugAddressRegisterNumber_get cfg (darn8 n) = .ok (darn8 n) := by
+  cases n <;> simp only [darn8, DebugAddressRegisterNumber.get] <;> tie_codec
+
+theorem Dr6Flags_trap (n : DebugAddressRegisterNumber) :
+    Src.Dr6Flags_trap cfg (darn8 n) = .ok (Dr6Flags.trap n) := by
+  cases n <;> simp only [darn8, DebugAddressRegisterNumber.get, Dr6Flags.trap] <;> rfl
+theorem Dr7Flags_local_breakpoint_enable (n : DebugAddressRegisterNumber) :
+    Src.Dr7Flags_local_breakpoint_enable cfg (darn8 n) = .ok (Dr7Flags.localBreakpointEnable n) := by
+  cases n <;> simp only [darn8, DebugAddressRegisterNumber.get, Dr7Flags.localBreakpointEnable] <;> rfl
+theorem Dr7Flags_global_breakpoint_enable (n : DebugAddressRegisterNumber) :
+    Src.Dr7Flags_global_breakpoint_enable cfg (darn8 n) = .ok (Dr7Flags.globalBreakpointEnable n) := by
+  cases n <;> simp only [darn8, DebugAddressRegisterNumber.get, Dr7Flags.globalBreakpointEnable] <;> rfl
+
+theorem BreakpointCondition_from_bits_closed (b : BitVec 64) :
+    Src.BreakpointCondition_from_bits cfg b = .ok (bif BitVec.ult b 4#64 then some (b.setWidth 8) else none) := by
+  tie_codec
+theorem BreakpointCondition_from_bits (b : BitVec 64) :
+    Src.BreakpointCondition_from_bits cfg b = .ok ((BreakpointCondition.fromBits b.toNat).map bc8) := by
+  rw [BreakpointCondition_from_bits_closed]
+  have h := lt4_map (w := 64) (by decide) b
+  rw [← bc_fromBits_toNat, Option.map_map] at h
+  exact congrArg R.ok h.symm
+
+theorem BreakpointSize_from_bits_closed (b : BitVec 64) :
+    Src.BreakpointSize_from_bits cfg b = .ok (bif BitVec.ult b 4#64 then some (b.setWidth 8) else none) := by
+  tie_codec
+theorem BreakpointSize_from_bits (b : BitVec 64) :
+    Src.BreakpointSize_from_bits cfg b = .ok ((BreakpointSize.fromBits b.toNat).map bs8) := by
+  rw [BreakpointSize_from_bits_closed]
+  have h := lt4_map (w := 64) (by decide) b
+  rw [← bs_fromBits_toNat, Option.map_map] at h
+  exact congrArg R.ok h.symm
+
+/-- `BreakpointSize::new(size)`: 1, 2, 8, 4 bytes ↦ LEN encodings 0, 1, 2, 3; nothing else. -/
+theorem BreakpointSize_new_closed (s : BitVec 64) :
+    Src.BreakpointSize_new cfg s = .ok (bif s == 1#64 then some 0#8 else bif s == 2#64 then some 1#8
+      else bif s == 8#64 then some 2#8 else bif s == 4#64 then some 3#8 else none) := by
+  tie_codec
+
+/-- `bit_range(n)` never panics (no profile) and is `lsb n .. lsb n + 2`. -/
+theorem BreakpointCondition_bit_range (n : DebugAddressRegisterNumber) :
+    Src.BreakpointCondition_bit_range cfg (darn8 n) =
+      .ok (BitVec.ofNat 64 (BreakpointCondition.lsb n), BitVec.ofNat 64 (BreakpointCondition.lsb n + 2)) := by
+  cases n <;> simp only [darn8, DebugAddressRegisterNumber.get, BreakpointCondition.lsb] <;> tie_codec
+theorem BreakpointSize_bit_range (n : DebugAddressRegisterNumber) :
+    Src.BreakpointSize_bit_range cfg (darn8 n) =
+      .ok (BitVec.ofNat 64 (BreakpointSize.lsb n), BitVec.ofNat 64 (BreakpointSize.lsb n + 2)) := by
+  cases n <;> simp only [darn8, DebugAddressRegisterNumber.get, BreakpointSize.lsb] <;> tie_codec
+
+/-- `condition(n)` never panics and returns the two bits at `16 + 4n`. -/
+theorem Dr7Value_condition_closed (v : BitVec 64) (n : DebugAddressRegisterNumber) :
+    Src.Dr7Value_condition cfg v (darn8 n) =
+      .ok (((v >>> BreakpointCondition.lsb n) &&& 3#64).setWidth 8) := by
+  cases n <;> simp only [darn8, DebugAddressRegisterNumber.get, BreakpointCondition.lsb] <;> tie_codec
+theorem Dr7Value_size_closed (v : BitVec 64) (n : DebugAddressRegisterNumber) :
+    Src.Dr7Value_size cfg v (darn8 n) = .ok (((v >>> BreakpointSize.lsb n) &&& 3#64).setWidth 8) := by
+  cases n <;> simp only [darn8, DebugAddressRegisterNumber.get, BreakpointSize.lsb] <;> tie_codec
+
+/-- `set_condition(n, c)` / `set_size(n, s)` replace exactly the two-bit field and never panic: the model's `setBits`. -/
+theorem Dr7Value_set_condition (v : BitVec 64) (n : DebugAddressRegisterNumber) (c : BreakpointCondition) :
+    Src.Dr7Value_set_condition cfg v (darn8 n) (bc8 c) = (Dr7Value.setCondition v n c).map (fun x => ((), x)) := by
+  cases n <;> cases c <;>
+    simp only [darn8, bc8, DebugAddressRegisterNumber.get, BreakpointCondition.lsb, BreakpointCondition.toNat,
+      Dr7Value.setCondition, setBits, Generated.BreakpointCondition_InstructionExecution,
+      Generated.BreakpointCondition_DataWrites, Generated.BreakpointCondition_IoReadsWrites,
+      Generated.BreakpointCondition_DataReadsWrites] <;>
+    simp (config := {decide := true}) only [BitVec.toNat_ofNat, Nat.reducePow, Nat.reduceMod, Nat.reduceLT, if_true,
+      R.map, Nat.reduceMul, Nat.reduceAdd, Nat.reduceSub] <;>
+    tie_codec
+theorem Dr7Value_set_size (v : BitVec 64) (n : DebugAddressRegisterNumber) (s : BreakpointSize) :
+    Src.Dr7Value_set_size cfg v (darn8 n) (bs8 s) = (Dr7Value.setSize v n s).map (fun x => ((), x)) := by
+  cases n <;> cases s <;>
+    simp only [darn8, bs8, DebugAddressRegisterNumber.get, BreakpointSize.lsb, BreakpointSize.toNat,
+      Dr7Value.setSize, setBits, Generated.BreakpointSize_Length1B, Generated.BreakpointSize_Length2B,
+      Generated.BreakpointSize_Length8B, Generated.BreakpointSize_Length4B] <;>
+    simp (config := {decide := true}) only [BitVec.toNat_ofNat, Nat.reducePow, Nat.reduceMod, Nat.reduceLT, if_true,
+      R.map, Nat.reduceMul, Nat.reduceAdd, Nat.reduceSub] <;>
+    tie_codec
+
+theorem ofOption_map_closed {α : Type} (f : Nat → Option α) (g : α → Nat)
+    (hf : ∀ n, (f n).map g = if n < 4 then some n else none) (x : BitVec 64) (hx : x.toNat < 4) :
+    (R.ofOption (f x.toNat)).map (fun a => BitVec.ofNat 8 (g a)) = .ok (x.setWidth 8) := by
+  have h := hf x.toNat
+  rw [if_pos hx] at h
+  cases hfx : f x.toNat with
+  | none => rw [hfx] at h; cases h
+  | some a =>
+    rw [hfx] at h
+    have hg : g a = x.toNat := by simpa using h
+    simp only [R.ofOption, R.map, hg]
+    congr 1
+
+theorem field2_lt (v : BitVec 64) (l : Nat) : (getBits v l 2).toNat < 4 := by
+  simp only [getBits, BitVec.toNat_and, BitVec.toNat_ofNat]
+  have : v.toNat >>> l &&& 3 ≤ 3 := Nat.and_le_right
+  simp only [Nat.reducePow, Nat.reduceSub, Nat.reduceMod, BitVec.toNat_ushiftRight]
+  omega
+
+theorem Dr7Value_condition (v : BitVec 64) (n : DebugAddressRegisterNumber) :
+    Src.Dr7Value_condition cfg v (darn8 n) = (Dr7Value.condition v n).map bc8 := by
+  rw [Dr7Value_condition_closed]
+  have h := ofOption_map_closed BreakpointCondition.fromBits BreakpointCondition.toNat bc_fromBits_toNat
+    (getBits v (BreakpointCondition.lsb n) 2) (field2_lt v _)
+  have e : (bc8 : BreakpointCondition → BitVec 8) = fun a => BitVec.ofNat 8 (BreakpointCondition.toNat a) := rfl
+  rw [Dr7Value.condition, e, h]
+  rfl
+
+theorem Dr7Value_size (v : BitVec 64) (n : DebugAddressRegisterNumber) :
+    Src.Dr7Value_size cfg v (darn8 n) = (Dr7Value.size v n).map bs8 := by
+  rw [Dr7Value_size_closed]
+  have h := ofOption_map_closed BreakpointSize.fromBits BreakpointSize.toNat bs_fromBits_toNat
+    (getBits v (BreakpointSize.lsb n) 2) (field2_lt v _)
+  have e : (bs8 : BreakpointSize → BitVec 8) = fun a => BitVec.ofNat 8 (BreakpointSize.toNat a) := rfl
+  rw [Dr7Value.size, e, h]
+  rfl
+
+theorem bs_new_toNat (n : Nat) :
+    (BreakpointSize.new n).map bs8 =
+      if n = 1 then some 0#8 else if n = 2 then some 1#8 else if n = 8 then some 2#8 else if n = 4 then some 3#8
+      else none := by
+  match n with
+  | 0 => rfl
+  | 1 => rfl
+  | 2 => rfl
+  | 3 => rfl
+  | 4 => rfl
+  | 5 => rfl
+  | 6 => rfl
+  | 7 => rfl
+  | 8 => rfl
+  | n + 9 => simp [BreakpointSize.new]
+
+/-- `BreakpointSize::new` is the model's, for every `usize`. -/
+theorem BreakpointSize_new (s : BitVec 64) :
+    Src.BreakpointSize_new cfg s = .ok ((BreakpointSize.new s.toNat).map bs8) := by
+  rw [BreakpointSize_new_closed, bs_new_toNat]
+  have e (k : Nat) (hk : k < 2 ^ 64) : (s == BitVec.ofNat 64 k) = decide (s.toNat = k) := by
+    by_cases h : s.toNat = k
+    · have : s = BitVec.ofNat 64 k := by apply BitVec.eq_of_toNat_eq; simp [h, Nat.mod_eq_of_lt hk]
+      simp [this, Nat.mod_eq_of_lt hk]
+    · have : ¬ s = BitVec.ofNat 64 k := by intro hs; apply h; rw [hs]; simp [Nat.mod_eq_of_lt hk]
+      simp [h, this]
+  rw [e 1 (by decide), e 2 (by decide), e 8 (by decide), e 4 (by decide)]
+  by_cases h1 : s.toNat = 1 <;> by_cases h2 : s.toNat = 2 <;> by_cases h8 : s.toNat = 8 <;>
+    by_cases h4 : s.toNat = 4 <;> simp [h1, h2, h8, h4]
+
+/-- `descriptor_table()` never panics: bits 1..2 ↦ GDT, IDT, LDT, IDT (discriminants 0, 1, 2, 1). -/
+theorem SelectorErrorCode_descriptor_table (f : BitVec 64) :
+    Src.SelectorErrorCode_descriptor_table cfg f =
+      .ok (bif ((f >>> 1) &&& 3#64) == 0#64 then 0#8 else bif ((f >>> 1) &&& 3#64) == 2#64 then 2#8 else 1#8) := by
+  tie_codec
+
 end X86.SrcTie
